@@ -346,7 +346,7 @@ func CopyObject(db Backend, srcBucket, srcKey, dstBucket, dstKey string, meta ma
 	defer c.Contents.Close()
 	verifhook.At("copy.between-get-put")
 
-	_, err = db.PutObject(dstBucket, dstKey, meta, c.Contents, c.Size)
+	put, err := db.PutObject(dstBucket, dstKey, meta, c.Contents, c.Size)
 	if err != nil {
 		return
 	}
@@ -354,6 +354,7 @@ func CopyObject(db Backend, srcBucket, srcKey, dstBucket, dstKey string, meta ma
 	return CopyObjectResult{
 		ETag:         `"` + hex.EncodeToString(c.Hash) + `"`,
 		LastModified: NewContentTime(time.Now()),
+		VersionID:    put.VersionID,
 	}, nil
 }
 
